@@ -1,2 +1,184 @@
 (* Proofs for C04. *)
-From WI Require Import Lib.Base Lib.Info Model.Determinism.
+From WI Require Import Lib.Base Lib.Time Model.Determinism.
+From Coq Require Import Permutation Sorting.Sorted.
+From WI Require gen.Scan.
+Open Scope N_scope.
+
+(* T1 instance lemmas: every map range and every environment-dependent call site in the
+   source, as scanned now, is classified *)
+Lemma ranges_benign_now : ranges_benign gen.Scan.map_ranges gen.Scan.reachable = true.
+Proof. vm_compute. reflexivity. Qed.
+
+Lemma env_benign_now : env_benign gen.Scan.env_reads = true.
+Proof. vm_compute. reflexivity. Qed.
+
+Lemma no_goroutines_now : gen.Scan.go_statements = 0.
+Proof. vm_compute. reflexivity. Qed.
+
+(* ---- key usages ---- *)
+(* ranging over the table in runtime order is NOT a function of the mask: two orders, one mask *)
+Lemma usages_order_matters : exists o1 o2 ku,
+  Permutation o1 usage_table /\ Permutation o2 usage_table /\
+  usages_in_order o1 ku <> usages_in_order o2 ku.
+Proof.
+  exists usage_table, (rev usage_table), 3.
+  split; [apply Permutation_refl|]. split; [apply Permutation_sym, Permutation_rev|].
+  vm_compute. discriminate.
+Qed.
+
+(* whatever the order, the SET of names is right: only the order was at fault *)
+Lemma usages_any_order_perm : forall o ku, Permutation o usage_table ->
+  Permutation (usages_in_order o ku) (key_usages ku).
+Proof.
+  intros o ku H. unfold key_usages, usages_in_order.
+  apply Permutation_map.
+  revert H. generalize usage_table. intros t H.
+  induction H; cbn [filter].
+  - constructor.
+  - destruct (N.land ku (fst x) =? fst x); [now constructor|assumption].
+  - destruct (N.land ku (fst x) =? fst x), (N.land ku (fst y) =? fst y); try apply Permutation_refl.
+    apply perm_swap.
+  - eapply Permutation_trans; eauto.
+Qed.
+
+(* ---- sort after collecting map keys ---- *)
+Lemma bytes_leb_refl : forall a, bytes_leb a a = true.
+Proof. induction a as [|x a IH]; cbn [bytes_leb]; [reflexivity|]. rewrite N.ltb_irrefl. exact IH. Qed.
+
+Lemma bytes_leb_total : forall a b, bytes_leb a b = true \/ bytes_leb b a = true.
+Proof.
+  induction a as [|x a IH]; intros b; [now left|].
+  destruct b as [|y b]; [now right|]. cbn [bytes_leb].
+  destruct (x <? y) eqn:E1; [now left|]. destruct (y <? x) eqn:E2; [now right|]. apply IH.
+Qed.
+
+Lemma bytes_leb_antisym : forall a b, bytes_leb a b = true -> bytes_leb b a = true -> a = b.
+Proof.
+  induction a as [|x a IH]; intros b H1 H2.
+  - destruct b; [reflexivity|discriminate].
+  - destruct b as [|y b]; [discriminate|]. cbn [bytes_leb] in H1, H2.
+    destruct (x <? y) eqn:E1.
+    + assert (y <? x = false) by (apply N.ltb_ge; apply N.ltb_lt in E1; lia). rewrite H in H2.
+      rewrite E1 in H2. discriminate.
+    + destruct (y <? x) eqn:E2; [discriminate|].
+      apply N.ltb_ge in E1, E2. assert (x = y) by lia. subst. f_equal. now apply IH.
+Qed.
+
+Lemma bytes_leb_trans : forall a b c, bytes_leb a b = true -> bytes_leb b c = true -> bytes_leb a c = true.
+Proof.
+  induction a as [|x a IH]; intros b c H1 H2; [reflexivity|].
+  destruct b as [|y b]; [discriminate|]. destruct c as [|z c]; [discriminate|].
+  cbn [bytes_leb] in *.
+  destruct (x <? y) eqn:E1.
+  - apply N.ltb_lt in E1. destruct (y <? z) eqn:E2.
+    + apply N.ltb_lt in E2. assert (x <? z = true) by (apply N.ltb_lt; lia). now rewrite H.
+    + destruct (z <? y) eqn:E3; [discriminate|]. apply N.ltb_ge in E2, E3.
+      assert (x <? z = true) by (apply N.ltb_lt; lia). now rewrite H.
+  - destruct (y <? x) eqn:E1'; [discriminate|]. apply N.ltb_ge in E1, E1'. assert (x = y) by lia. subst y.
+    destruct (x <? z) eqn:E2; [reflexivity|]. destruct (z <? x) eqn:E3; [discriminate|]. eapply IH; eauto.
+Qed.
+
+Definition le_b (a b : bytes) : Prop := bytes_leb a b = true.
+
+Lemma insert_perm : forall x l, Permutation (insert_sorted x l) (x :: l).
+Proof.
+  induction l as [|y l IH]; cbn [insert_sorted]; [apply Permutation_refl|].
+  destruct (bytes_leb x y); [apply Permutation_refl|].
+  eapply Permutation_trans; [apply perm_skip, IH|apply perm_swap].
+Qed.
+
+Lemma sort_perm : forall l, Permutation (sort_strings l) l.
+Proof.
+  induction l as [|x l IH]; cbn [sort_strings fold_right]; [constructor|].
+  eapply Permutation_trans; [apply insert_perm|now constructor].
+Qed.
+
+Lemma insert_sorted_sorted : forall x l, Sorted le_b l -> Sorted le_b (insert_sorted x l).
+Proof.
+  induction l as [|y l IH]; intros H; cbn [insert_sorted].
+  - repeat constructor.
+  - destruct (bytes_leb x y) eqn:E.
+    + constructor; [assumption|]. constructor. exact E.
+    + inversion H as [|? ? Hs Hh]; subst.
+      constructor; [now apply IH|].
+      assert (Hyx : le_b y x). { destruct (bytes_leb_total x y) as [C|C]; [congruence|exact C]. }
+      destruct l as [|z l]; cbn [insert_sorted].
+      * now constructor.
+      * destruct (bytes_leb x z); constructor; [exact Hyx|]. inversion Hh; assumption.
+Qed.
+
+Lemma sort_sorted : forall l, Sorted le_b (sort_strings l).
+Proof.
+  induction l as [|x l IH]; cbn [sort_strings fold_right]; [constructor|].
+  now apply insert_sorted_sorted.
+Qed.
+
+Lemma sorted_strongly : forall l, Sorted le_b l -> StronglySorted le_b l.
+Proof.
+  apply Sorted_StronglySorted. intros a b c. unfold le_b. apply bytes_leb_trans.
+Qed.
+
+(* two sorted lists with the same elements are equal *)
+Lemma sorted_perm_eq : forall l1 l2, StronglySorted le_b l1 -> StronglySorted le_b l2 ->
+  Permutation l1 l2 -> l1 = l2.
+Proof.
+  induction l1 as [|x l1 IH]; intros l2 S1 S2 P.
+  - apply Permutation_nil in P. now subst.
+  - destruct l2 as [|y l2]; [apply Permutation_sym, Permutation_nil in P; discriminate|].
+    inversion S1 as [|? ? S1' F1]; inversion S2 as [|? ? S2' F2]; subst.
+    assert (x = y).
+    { apply bytes_leb_antisym.
+      - assert (In y (x :: l1)) by (eapply Permutation_in; [apply Permutation_sym, P|now left]).
+        destruct H as [->|H]; [apply bytes_leb_refl|]. rewrite Forall_forall in F1. now apply F1.
+      - assert (In x (y :: l2)) by (eapply Permutation_in; [apply P|now left]).
+        destruct H as [->|H]; [apply bytes_leb_refl|]. rewrite Forall_forall in F2. now apply F2. }
+    subst y. f_equal. apply IH; try assumption. now apply Permutation_cons_inv in P.
+Qed.
+
+(* the listing does not depend on the order in which the runtime enumerated the map *)
+Theorem sort_perm_invariant : forall keys1 keys2, Permutation keys1 keys2 ->
+  identities_listed keys1 = identities_listed keys2.
+Proof.
+  intros k1 k2 P. unfold identities_listed.
+  apply sorted_perm_eq; try (apply sorted_strongly, sort_sorted).
+  eapply Permutation_trans; [apply sort_perm|].
+  eapply Permutation_trans; [exact P|apply Permutation_sym, sort_perm].
+Qed.
+
+(* ---- dates ---- *)
+(* formatting in the local zone depends on TZ: 2024-03-01 23:30 UTC is already 2 March at +14:00 *)
+Lemma local_date_depends_on_tz : exists sec o1 o2, date_attr_at o1 sec <> date_attr_at o2 sec.
+Proof. exists 1709335800%Z, 0%Z, 50400%Z. vm_compute. discriminate. Qed.
+
+Lemma local_keystore_date_depends_on_tz : exists sec o1 o2, keystore_date_at o1 sec <> keystore_date_at o2 sec.
+Proof. exists 1702195124%Z, 50400%Z, (-28800)%Z. vm_compute. discriminate. Qed.
+
+(* ---- the dispatcher is a function of its inputs (no hidden state, no functional
+   extensionality axiom needed: pointwise-equal oracles give equal results) ---- *)
+From WI Require Import Lib.Info Model.Dispatch.
+
+Lemma candidates_ext : forall s1 s2 t name data, (forall n d, s1 n d = s2 n d) ->
+  candidates_in s1 t name data = candidates_in s2 t name data.
+Proof.
+  intros s1 s2 t name data H. induction t as [|r t IH]; cbn [candidates_in]; [reflexivity|].
+  unfold row_matches, smells_like. rewrite IH.
+  destruct (matches_name r name) as [[|]| |]; try reflexivity.
+  destruct (r_sniffer r); [reflexivity|]. now rewrite H.
+Qed.
+
+Lemma first_success_ext : forall p1 p2 ps data, (forall n d, p1 n d = p2 n d) ->
+  first_success p1 ps data = first_success p2 ps data.
+Proof.
+  intros p1 p2 ps data H. induction ps as [|p ps IH]; cbn [first_success]; [reflexivity|].
+  rewrite H, IH. reflexivity.
+Qed.
+
+Lemma dispatch_functional : forall sniff1 sniff2 parse1 parse2 name data,
+  (forall n d, sniff1 n d = sniff2 n d) -> (forall n d, parse1 n d = parse2 n d) ->
+  inspect sniff1 parse1 name data = inspect sniff2 parse2 name data.
+Proof.
+  intros s1 s2 p1 p2 name data Hs Hp. unfold inspect, inspect_in.
+  rewrite (candidates_ext s1 s2 table name data Hs).
+  destruct (candidates_in s2 table name data); try reflexivity.
+  now apply first_success_ext.
+Qed.
